@@ -426,6 +426,18 @@ def run (c : Cfg) : State → List Act → Option State
     | some s' => run c s' as
     | none => none
 
+/-! ### views used by the statements -/
+
+/-- the job incarnations of the table: (id, group id), in table order -/
+def keys (s : Sh) : List (Nat × Pid) := s.jobs.map fun j => (j.id, j.gid)
+
+/-- the (id, group id) of a final announcement (`Done`, `Killed…`, …); `Stopped` announcements are not final -/
+def finKey : Out → Option (Nat × Pid)
+  | .report i g w => if w = "Stopped" then none else some (i, g)
+  | _ => none
+
+def finKeys (out : List Out) : List (Nat × Pid) := out.filterMap finKey
+
 /-! ### sessions: the property's alphabet, replayed along one canonical schedule
 
 A session action expands into a path of `step`: a child's own `setpgid` directly after its fork, a stage that
